@@ -1,5 +1,7 @@
 import Driver.Codec
 import Spec.C01
+import Spec.C09
+import Spec.C11
 open Lean Cfi
 
 namespace Driver.Lines
@@ -37,5 +39,66 @@ def handleC01 (j : Json) : R Json := do
         then ["a float is not rendered in the configured dialect / accuracy / maximal decimals"] else [])
     pure (Json.mkObj [("indomain", toJson indom), ("agree", toJson agree), ("holds", toJson holds),
       ("model_holds", toJson mholds), ("model", (m.map encodeObs).getD Json.null), ("clauses", toJson why)])
+
+/-- C09: `{fields, values, obs: {written: bytes, read_back} | {exc}}` -/
+def handleC09 (j : Json) : R Json := do
+  let fs ← decodeFields (← field j "fields")
+  let vs ← decodeVals (← field j "values")
+  let obsJ ← field j "obs"
+  let indom := Spec.C09.inDomain fs vs
+  let m := Spec.C09.cycle fs vs
+  let mholds := match m with
+    | some o => Spec.C09.holds fs vs o
+    | none => !indom
+  let enc (o : Spec.C09.Obs) : Json :=
+    Json.mkObj [("written", jBytes o.written), ("read_back", encodeVals o.readBack)]
+  if isExc obsJ then
+    pure (Json.mkObj [("indomain", toJson indom), ("agree", toJson false), ("holds", toJson false),
+      ("model_holds", toJson mholds), ("model", (m.map enc).getD Json.null)])
+  else
+    let o : Spec.C09.Obs := { written := ← bytes (← field obsJ "written"),
+                              readBack := ← decodeVals (← field obsJ "read_back") }
+    pure (Json.mkObj [("indomain", toJson indom), ("agree", toJson (m == some o)),
+      ("holds", toJson (Spec.C09.holds fs vs o)), ("model_holds", toJson mholds),
+      ("model", (m.map enc).getD Json.null)])
+
+/-- C11: `{fields, values, delimiter, pads:[[a,b]…], lines:[str…],
+obs: {written, read_back, read_padded, seq_reads} | {exc}}`; replies with the padded line too -/
+def handleC11 (j : Json) : R Json := do
+  let fs ← decodeFields (← field j "fields")
+  let vs ← decodeVals (← field j "values")
+  let d ← chars (← field j "delimiter")
+  let pads ← (← arrF j "pads").toList.mapM fun p => do
+    let a ← natList p
+    pure (a.getD 0 0, a.getD 1 0)
+  let lines ← (← arrF j "lines").toList.mapM chars
+  let indom := Spec.C11.inDomain fs vs d
+  let m := Spec.C11.cycle fs vs d pads lines
+  let mholds := match m with
+    | some o => Spec.C11.holds fs vs d pads lines o
+    | none => !indom
+  let enc (o : Spec.C11.Obs) : Json :=
+    Json.mkObj [("written", jChars o.written), ("read_back", encodeVals o.readBack),
+      ("read_padded", encodeVals o.readPadded), ("seq_reads", Json.arr (o.seqReads.map encodeVals).toArray)]
+  let padded : Json := match Spec.C11.tokens fs vs with
+    | some ts => jChars (Spec.C11.padLine ts d pads)
+    | none => Json.null
+  match j.getObjVal? "obs" with
+  | .error _ =>
+    -- first phase: the harness asks for the padded line
+    pure (Json.mkObj [("indomain", toJson indom), ("padded", padded)])
+  | .ok obsJ =>
+    if isExc obsJ then
+      pure (Json.mkObj [("indomain", toJson indom), ("agree", toJson false), ("holds", toJson false),
+        ("model_holds", toJson mholds), ("model", (m.map enc).getD Json.null)])
+    else
+      let o : Spec.C11.Obs := {
+        written := ← chars (← field obsJ "written"),
+        readBack := ← decodeVals (← field obsJ "read_back"),
+        readPadded := ← decodeVals (← field obsJ "read_padded"),
+        seqReads := ← (← arrF obsJ "seq_reads").toList.mapM decodeVals }
+      pure (Json.mkObj [("indomain", toJson indom), ("agree", toJson (m == some o)),
+        ("holds", toJson (Spec.C11.holds fs vs d pads lines o)), ("model_holds", toJson mholds),
+        ("model", (m.map enc).getD Json.null)])
 
 end Driver.Lines
